@@ -46,6 +46,8 @@ def s_jobs(ctx):
         for procs in itertools.product(small, repeat=2):
             for sc in sched.scripts(1):
                 jobs.append(('S', procs, sc, True))
+                # the engine starts at a non-zero (dyadic) time
+                jobs.append(('S', procs, sc, False, 10.5))
     else:
         for n in (1, 2):
             for procs in itertools.product(pc, repeat=n):
@@ -62,8 +64,10 @@ def s_jobs(ctx):
 
 
 def run_s(job, acc, monitors=MONITORS):
-    _, procs, script, nested = job
-    spec = sched.s_world(procs, script, nested=nested)
+    _, procs, script, nested = job[:4]
+    t0 = job[4] if len(job) > 4 else 0
+    spec = sched.s_world(procs, script, nested=nested, engine=(
+        {'initial_global_time': t0} if t0 else None))
     ex = worlds.execute(spec, guard_factory=sched.lasso_guard)
     p = sched.Parsed(ex)
     sched.record_states(acc, p)
@@ -75,7 +79,7 @@ def run_s(job, acc, monitors=MONITORS):
     if 'c03' in monitors:
         viols += sched.mon_c03_clock(spec, ex, p)
     n_tok = sum(len(v) for v in p.invokes.values())
-    acc.case(key=('S', procs, script, nested),
+    acc.case(key=('S', procs, script, nested, t0),
              outcome=f'S:tokens={min(n_tok, 12)}:rows='
                      f'{min(len(worlds.history_rows(ex)), 12)}',
              nontrivial=n_tok > 0 or any(c == 'never' for _, c in procs))
@@ -84,7 +88,7 @@ def run_s(job, acc, monitors=MONITORS):
         acc.violate(v)
     if len(acc.samples) < 2:
         acc.sample({'family': 'S', 'procs': procs, 'script': script,
-                    'nested': nested,
+                    'nested': nested, 't0': t0,
                     'applied': {str(k): [t for t, _ in v]
                                 for k, v in list(p.applies.items())[:6]}})
 
@@ -206,7 +210,82 @@ def run_kill(job, acc):
               f'{t_del} but applied at {ap}')
 
 
+def mints_jobs(ctx):
+    """Processes whose condition depends on the timestep argument ("do
+    not run for intervals shorter than X"), against forcing calls that cut
+    their last interval."""
+    jobs = []
+    for ts in (1, 2, 3):
+        for x in (0.75, 1, 2):
+            if x > ts:
+                continue
+            for sc in sched.scripts(1):
+                for other in (None, 0.5, 1):
+                    jobs.append(('M', ts, x, other, sc))
+    return jobs
+
+
+def run_mints(job, acc):
+    _, ts, x, other, script = job
+    procs = [(ts, 'always')] + ([(other, 'always')] if other else [])
+    spec = sched.s_world(procs, script)
+    spec['processes']['p0']['cond'] = {'$min_ts': x}
+    spec['family'] = 'M'
+    spec['job'] = job
+    ex = worlds.execute(spec, guard_factory=sched.lasso_guard)
+    p = sched.Parsed(ex)
+    sched.record_states(acc, p)
+    acc.case(key=job, outcome='M')
+    V = lambda rule, fp, msg: acc.violate(  # noqa
+        fw.violation(rule, fp, msg, spec))
+    if ex.error:
+        V('C01.crash', 'mints:' + sched.crash_fp(ex),
+          f'unexpected {ex.error[2]!r}')
+        return
+    for rec in p.invokes.get('p0', []):
+        if rec['ts'] < x:
+            V('C01.quiet', 'invoked-for-an-interval-its-condition-rejects',
+              f'p0 (runs only for intervals >= {x}) was invoked at '
+              f't={rec["t"]} for an interval of length {rec["ts"]}')
+            return
+        ap = sorted(t for t, _ in p.applies.get(('p0', rec['n']), []))
+        if len(ap) != 2 or ap[0] != ap[1] or not (
+                rec['t'] <= ap[0] <= rec['t'] + rec['ts']):
+            V('C01.time', 'conditional-process-update-misapplied',
+              f'p0 update {rec["n"]} (invoked {rec["t"]}, ts {rec["ts"]}) '
+              f'applied at {ap}')
+            return
+    # full intervals are never skipped: every full-length interval that
+    # fits before the end of a call was simulated
+    ref = sched.ideal_timeline([(ts, 'always')], script, 0)[0]
+    full = [a for a, t_ in ref if t_ == ts]
+    got_full = sorted(a for rec in p.invokes.get('p0', [])
+                      for a, _ in p.applies.get(('p0', rec['n']), [])[:1]
+                      if rec['ts'] == ts)
+    if got_full[:len(full)] != full[:len(got_full)] or \
+            len(got_full) < len(full):
+        V('C01.lost', 'full-interval-of-conditional-process-skipped',
+          f'p0 full intervals end at {got_full}, ideal {full}')
+
+
+def bfs_jobs(ctx):
+    scripts = afamily.A_SCRIPTS_QUICK if ctx.quick else \
+        afamily.A_SCRIPTS_THOROUGH
+    if ctx.quick:
+        scripts = scripts[:2]
+    return [('BFS', n, sc, True, fast, 200)
+            for n in (1, 2) for sc in scripts
+            for fast in ((False, True) if n == 2 and not ctx.quick
+                         else (False,))]
+
+
 def run_job(job, acc):
+    if job[0] == 'M':
+        run_mints(job, acc)
+        return
+    if job[0] == 'BFS':
+        afamily.run_bfs_job(job, acc, MONITORS)
+        return
     if job[0] == 'K':
         run_kill(job, acc)
         return
@@ -221,7 +300,8 @@ def run_job(job, acc):
 def run(ctx):
     fw.preload_forkserver()
     acc = ctx.map(run_job, par_jobs(ctx), chunk=4)
-    ctx.map(run_job, kill_jobs(ctx), acc=acc)
+    ctx.map(run_job, kill_jobs(ctx) + mints_jobs(ctx), acc=acc)
+    ctx.map(run_job, bfs_jobs(ctx), acc=acc, chunk=1)
     ctx.map(run_job, afamily.a_jobs(ctx), acc=acc, chunk=1)
     return ctx.map(run_job, s_jobs(ctx), acc=acc)
 
@@ -230,12 +310,15 @@ def replay(case):
     acc = fw.Acc()
     if case.get('family') == 'K':
         run_kill(case['job'], acc)
+    elif case.get('family') == 'M':
+        run_mints(case['job'], acc)
     elif case.get('family') == 'Par':
         fw.preload_forkserver()
         run_par(('Par', case['procs'], case['script'][:-1],
                  case['parallel']), acc)
     elif case.get('family') == 'S':
-        run_s(('S', case['procs'], case['script'], case.get('nested', False)),
+        run_s(('S', case['procs'], case['script'], case.get('nested', False),
+               case.get('engine', {}).get('initial_global_time', 0)),
               acc, MONITORS)
     else:
         afamily.replay(case, acc, MONITORS)
